@@ -17,7 +17,7 @@ import (
 func init() {
 	Register(&Spec{
 		ID:          "C10",
-		Explanation: "Decides structural necessary conditions of exactly-once shutdown of a capability: (R1) lock balance and the resolveHook hand-over in capability.go; (R2) clientHook.{refs,calls,resolvedHook} and Client.{h,released} are only touched with their mutex held; (R3) every close(h.done) is reached only under guards establishing refs == 0 and calls == 0, with the hook mutex held; (R4) ClientHook.Shutdown is called only from Client.Release and ClientPromise.Fulfill, after a receive from that hook's done channel, with no mutex held; (R5) startCall increments calls before handing out a hook, every caller runs finish on all paths, and SendCall/RecvCall test released and nil before the dynamic call; (R6) Fulfill moves the promise's refs to the resolved hook and WeakClient.AddRef refuses a hook with refs == 0. (R6c) ClientPromise.Fulfill credits the promise's references to the resolution (resolveHook) before it waits for the old hook to drain or shuts it down. (R6r) every increment of clientHook.refs is applied to the result of resolveHook (directly, or through x.h read after x.h = resolveHook(...)). (R6j) Promise.Join moves p's whole clientsRefs count to the promise it joins on every path that sets p.next. Does NOT decide exactly-once under interleavings (only that every access is serialised and every close conditioned) nor deadlock-freedom of user hooks.",
+		Explanation: "Decides structural necessary conditions of exactly-once shutdown of a capability: (R1) lock balance and the resolveHook hand-over in capability.go; (R2) clientHook.{refs,calls,resolvedHook} and Client.{h,released} are only touched with their mutex held; (R3) every close(h.done) is reached only under guards establishing refs == 0 and calls == 0, with the hook mutex held; (R4) ClientHook.Shutdown is called only from Client.Release and ClientPromise.Fulfill, after a receive from that hook's done channel, with no mutex held; (R5) startCall increments calls before handing out a hook, every caller runs finish on all paths, and SendCall/RecvCall test released and nil before the dynamic call; (R6) Fulfill moves the promise's refs to the resolved hook and WeakClient.AddRef refuses a hook with refs == 0. (R6c) ClientPromise.Fulfill credits the promise's references to the resolution (resolveHook) before it waits for the old hook to drain or shuts it down. (R6r) every increment of clientHook.refs is applied to the result of resolveHook (directly, or through x.h read after x.h = resolveHook(...)). (R6j) Promise.Join moves p's whole clientsRefs count to the promise it joins on every path that sets p.next. (R7) once Release has set c.released, every path to a return clears c.h. Does NOT decide exactly-once under interleavings (only that every access is serialised and every close conditioned) nor deadlock-freedom of user hooks.",
 		Run:         runC10,
 	})
 }
@@ -55,6 +55,7 @@ func runC10(ctx *Ctx) {
 	// releases, and so shuts down, capabilities that are still in use
 	ruleJoinState(ctx, "C10-R6j")
 	ruleRefsCountedOnResolvedHook(ctx, "C10-R6r")
+	ruleReleaseDetachesHook(ctx, "C10-R7")
 	r := ctx.Rep
 	r.Floor("C10-R6b", 1)
 	r.Floor("C10-R1", 40)
